@@ -104,7 +104,7 @@ impl ClientLoop {
     }
 
 // one transaction: format, write once, wait for the reply with this transaction id or the deadline
-//@fn rodbus/src/client/task.rs | ClientLoop::execute_request | tags=C03,C04,C10,C11,C12,C20 | r3 r10=0,1 r10id=0 r18ty=response:crate::common::frame::Frame | attr=#[verifier::exec_allows_no_decreases_clause]
+//@fn rodbus/src/client/task.rs | ClientLoop::execute_request | tags=C03,C04,C10,C11,C12,C20 | r3 r3id r10=0,1 r10id=0 r18ty=response:crate::common::frame::Frame | attr=#[verifier::exec_allows_no_decreases_clause]
 //@|    requires old(self).wf(), old(request).details.wf(),
 //@|    ensures final(self).wf(), final(self).same_config(old(self)), final(self).tx_id == old(self).tx_id, final(self).timeout_counter == old(self).timeout_counter,
 //@|        final(request).id == old(request).id, final(request).timeout == old(request).timeout, final(request).details.same_request(&old(request).details),
@@ -153,11 +153,13 @@ impl ClientLoop {
 //@|            && (e is BadFrame ==> r == Err::<(), SessionError>(SessionError::BadFrame))
 //@|            && (!(e is ResponseTimeout) && !(e is Io) && !(e is BadFrame) ==> r is Ok && final(self).timeout_counter.count() == 0)
 //@|            && !(e is Shutdown) && !(e is NoConnection)),
+//@|        r is Err ==> (r->Err_0 is MaxTimeouts || r->Err_0 is IoError || r->Err_0 is BadFrame),
 
 //@fn rodbus/src/client/task.rs | ClientLoop::run_cmd | tags=C10,C11,C13,C20
 //@|    requires old(self).wf(), cmd matches Command::Request(q) ==> q.details.wf() && q.details.outcome() is None,
 //@|    ensures final(self).wf(), final(self).writer.is_tcp() == old(self).writer.is_tcp(),
 //@|        cmd is Shutdown ==> r == Err::<(), SessionError>(SessionError::Shutdown),
+//@|        r matches Err(SessionError::Disabled) ==> !final(self).enabled,
 //@|        cmd matches Command::Setting(s) ==> final(self).tx_id == old(self).tx_id && final(io).sent == old(io).sent
 //@|            && (r is Err <==> !final(self).enabled) && (r is Err ==> r == Err::<(), SessionError>(SessionError::Disabled)),
 
@@ -172,26 +174,31 @@ impl ClientLoop {
 //@fn rodbus/src/client/task.rs | ClientLoop::fail_requests | tags=C13 | attr=#[verifier::exec_allows_no_decreases_clause]
 //@|    requires old(self).wf(),
 //@|    ensures final(self).wf(), final(self).tx_id == old(self).tx_id, r is Disable ==> !final(self).enabled,
-//@loop 0|            invariant self.wf(), self.tx_id == old(self).tx_id,
+//@|        final(self).writer.is_tcp() == old(self).writer.is_tcp(),
+//@loop 0|            invariant self.wf(), self.tx_id == old(self).tx_id, self.writer.is_tcp() == old(self).writer.is_tcp(),
 
 //@fn rodbus/src/client/task.rs | ClientLoop::fail_requests_for | tags=C13,C14 | r3
 //@|    requires old(self).wf(),
 //@|    ensures final(self).wf(), final(self).tx_id == old(self).tx_id, r matches Err(StateChange::Disable) ==> !final(self).enabled,
+//@|        final(self).writer.is_tcp() == old(self).writer.is_tcp(),
 
 //@fn rodbus/src/client/task.rs | ClientLoop::wait_for_enabled | tags=C13 | attr=#[verifier::exec_allows_no_decreases_clause]
 //@|    requires old(self).wf(),
 //@|    ensures final(self).wf(), final(self).tx_id == old(self).tx_id, r is Ok ==> final(self).enabled,
-//@loop 0|            invariant self.wf(), self.tx_id == old(self).tx_id,
+//@|        final(self).writer.is_tcp() == old(self).writer.is_tcp(),
+//@loop 0|            invariant self.wf(), self.tx_id == old(self).tx_id, self.writer.is_tcp() == old(self).writer.is_tcp(),
 
 // [C11] frames arriving while no request is outstanding are dropped; [C05] a framing error ends the session
-//@fn rodbus/src/client/task.rs | ClientLoop::poll | tags=C05,C10,C11,C13 | r3
+//@fn rodbus/src/client/task.rs | ClientLoop::poll | tags=C05,C10,C11,C13 | r3 r10
 //@|    requires old(self).wf(),
 //@|    ensures final(self).wf(), final(self).writer.is_tcp() == old(self).writer.is_tcp(),
+//@|        r matches Err(SessionError::Disabled) ==> !final(self).enabled,
 //@entry| broadcast use crate::client::message::axiom_queue_inv;
 
 // [C12] the count is cleared at session start
 //@fn rodbus/src/client/task.rs | ClientLoop::run | tags=C12,C13 | attr=#[verifier::exec_allows_no_decreases_clause]
 //@|    requires old(self).wf(),
-//@|    ensures final(self).wf(),
-//@loop 0|            invariant self.wf(),
+//@|    ensures final(self).wf(), final(self).writer.is_tcp() == old(self).writer.is_tcp(),
+//@|        r is Disabled ==> !final(self).enabled,      // [C13] Disabled is reported only after a disable
+//@loop 0|            invariant self.wf(), self.writer.is_tcp() == old(self).writer.is_tcp(),
 }
